@@ -8,7 +8,7 @@ PROPS = {
                  "each value is marshalled and unmarshalled on a fresh and on a long-lived instance and compared with the documented "
                  "normalisation computed by the harness's own model. Non-trivial = the type has a composite and the value a non-zero leaf; "
                  "distinct by hash of (config, type, values)."),
-        "jobs": [{"run": "^TestC01", "shards": 48, "quick_shards": 4, "timeout_quick": 600, "timeout_thorough": 3000}],
+        "jobs": [{"run": "^TestC01", "shards": 64, "quick_shards": 4, "timeout_quick": 600, "timeout_thorough": 3000}],
     },
     "C02": {
         "rule": ("same generator as C01 (config x type definition x values). Oracle: the harness's reference encoder, written from README/wire.go/"
@@ -16,7 +16,7 @@ PROPS = {
                  "(after sorting map entries with a strict type-guided walker when a map has >1 entry); and Unmarshal of the reference encoding "
                  "with struct fields permuted at every nesting level must give the normalised value. Non-trivial = the encoding has >=2 fields "
                  "or a container; distinct by hash of (config, type, values, permutation seed)."),
-        "jobs": [{"run": "^TestC02", "shards": 48, "quick_shards": 4, "timeout_quick": 600, "timeout_thorough": 3000}],
+        "jobs": [{"run": "^TestC02", "shards": 64, "quick_shards": 4, "timeout_quick": 600, "timeout_thorough": 3000}],
     },
     "C18": {
         "rule": ("(1) exhaustive: every 2^k, 2^k±1, 2^k±2 and the extremes as uint64/int64/negated; all tags for wire types 0..5 x indexes 0..4096 and "
@@ -40,7 +40,7 @@ PROPS = {
                  "per element in the repeated form); Read(body) consumes len(body); whole Marshal output walks to its exact end. A second "
                  "generator covers exported codecs (BQTimestampCodec alone and registered on an instance, TimeCodec, TimeCompatCodec, "
                  "InternedStringCodec; null codecs are reached through null-typed fields). Non-trivial = body of >=1 byte; distinct by case hash."),
-        "jobs": [{"run": "^TestC05", "shards": 48, "quick_shards": 4, "timeout_quick": 600, "timeout_thorough": 3000}],
+        "jobs": [{"run": "^TestC05", "shards": 64, "quick_shards": 4, "timeout_quick": 600, "timeout_thorough": 3000}],
     },
     "C06": {
         "rule": ("(config x type x value) as C01 with extra weight on values that encode to nothing and on by-value pointer-shaped structs "
@@ -48,7 +48,7 @@ PROPS = {
                  "exact fit-1, large} x {by value, by pointer} x 1-4 repetitions re-using the returned buffer. Oracle: result == prefix || "
                  "Marshal(nil,&v) (up to map entry order via the walker when a map has >1 entry), caller's bytes below len untouched, value "
                  "unchanged. Non-trivial = non-empty prefix; distinct by case hash."),
-        "jobs": [{"run": "^TestC06", "shards": 48, "quick_shards": 4, "timeout_quick": 600, "timeout_thorough": 3000}],
+        "jobs": [{"run": "^TestC06", "shards": 64, "quick_shards": 4, "timeout_quick": 600, "timeout_thorough": 3000}],
     },
     "C09": {
         "rule": ("presence-focused generator: structs (nested up to 3 levels) whose fields are pointers to every leaf kind / small structs / "
@@ -77,7 +77,7 @@ PROPS = {
                  "nested structs and behind pointers). Oracle: Unmarshal(Marshal_S(v), &s') == nil and s' equals the projection computed on the "
                  "harness's value model (shared indexes: value decoded as in S; others: prior value). Non-trivial = a removed field with a "
                  "non-zero value precedes a surviving non-zero field in the encoding; labels record the skipped wire forms; distinct by case hash."),
-        "jobs": [{"run": "^TestC03", "shards": 48, "quick_shards": 4, "timeout_quick": 600, "timeout_thorough": 3000}],
+        "jobs": [{"run": "^TestC03", "shards": 64, "quick_shards": 4, "timeout_quick": 600, "timeout_thorough": 3000}],
     },
     "C10": {
         "rule": ("stateful / model-based: a case is (config, 1-3 generated struct types, 3-14 operations) run against one long-lived Plenc that also "
